@@ -1823,7 +1823,15 @@ def direct_function(fn, ref_fps: List[str], known_names: set, stored_attrs, norm
     heap = [((-m, u), 0, counter, cur)]
     best, best_m, best_u = cur, m, u
     tier = 1          # rewrites that duplicate statements (DUPLICATING) are only tried when the others are exhausted
+    stall = max(150, budget // 5)
+    last_gain = 0
     while best_u > 0 and evals < budget:
+        if evals - last_gain > stall:
+            # no progress for a long while (typically a function whose behaviour changed: it cannot be brought back): next tier, then stop
+            if tier == 2:
+                break
+            heap = []
+            last_gain = evals
         if tier == 1 and evals > 0.6 * budget:
             heap = []          # keep a share of the budget for the rewrites of the second tier
         if not heap:
@@ -1866,6 +1874,7 @@ def direct_function(fn, ref_fps: List[str], known_names: set, stored_attrs, norm
                 if debug:
                     print(f"canon_rw: {fn.name}: {kind}: matched {best_m} -> {tm}, different {best_u} -> {tu}")
                 best, best_m, best_u = t, tm, tu
+                last_gain = evals
                 counter += 1
                 heap = [((-tm, tu), 0, counter, t)]      # restart from the improvement
                 tier = 1
